@@ -207,6 +207,10 @@ def gen_project(rng: random.Random, size: str = 'small') -> T.Dict[str, T.Any]:
             e2 = {'kind': 'exe', 'name': 'elast', 'uses': ['hr'], 'seg': r['seg'], 'hdr_via': 'sources', 'link_with': [], 'deps': [], 'pairs': [],
                   'pair_hdr_only': [], 'gsrcs': [], 'subp': False}
             ents.append(e2)
+    # precompiled headers that pull in generated headers: the PCH step needs them ordered before it as well
+    for e in ents:
+        if e['kind'] in ('lib', 'exe') and rng.random() < 0.25 and any(h for h in e.get('uses', [])):
+            e['pch'] = True
     # consumers that include the generator()-made header of a library they are (transitively) linked with
     for e in ents:
         if e['kind'] not in ('lib', 'exe'):
@@ -421,6 +425,11 @@ def render(spec: T.Dict[str, T.Any], sd: str) -> None:
                 with open(os.path.join(srcdir, f'{n}_pub.hin'), 'w') as f:
                     f.write(f'{n.upper()}_PUB {3 + len(n)}\n')
                 srcs.append(f"genh.process('{n}_pub.hin')")
+            if e.get('pch'):
+                os.makedirs(os.path.join(srcdir, 'pch'), exist_ok=True)
+                with open(os.path.join(srcdir, 'pch', f'{n}_pch.h'), 'w') as f:
+                    f.write('#include <stddef.h>\n' + ''.join(f'#include "{hdr_file(h)}"\n' for h in e.get('uses', []) if h in byname))
+                kw.append(f"c_pch: 'pch/{n}_pch.h'")
             if e.get('install'):
                 kw.append('install: true')
             if e.get('link_with'):
